@@ -38,7 +38,13 @@ def main():
         obl = r["obligations"]
         t1 = time.time()
         res = solve.discharge_all(obl)
-        bad = [x for x in res if (x["verdict"] != "proved") != (obl[x["idx"]].get("expect") == "fail")]
+        groups = {}
+        for x in res:
+            g = obl[x["idx"]].get("group")
+            if g:
+                groups.setdefault(g, []).append(x["verdict"] != "proved")
+        okgrp = {g for g, v in groups.items() if any(v)}
+        bad = [x for x in res if (x["verdict"] != "proved") != (obl[x["idx"]].get("expect") == "fail") and obl[x["idx"]].get("group") not in okgrp]
         by = {}
         for x in res:
             by[x["backend"]] = by.get(x["backend"], 0) + 1
